@@ -412,7 +412,9 @@ def gen_cli(repo):
     if not m:
         raise Untranslatable("Env::status not found")
     st = m.group(1)
-    shape = (r"use structopt::clap::ErrorKind; if let Err\(error\) = self\.run\(\) \{ if let Error::Clap \{ source \} = error \{ "
+    # since the repair e7d4572 success is reported only after standard output has been flushed: a failed flush is Error::Stdout
+    shape = (r"use structopt::clap::ErrorKind; let result = self \.run\(\) \.and_then\(\|\(\)\| self\.out\.flush\(\)\.context\(error::Stdout\)\); "
+             r"if let Err\(error\) = result \{ if let Error::Clap \{ source \} = error \{ "
              r"if source\.use_stderr\(\) \{ write!\(&mut self\.err, \"\{source\}\"\)\.ok\(\); \} else \{ write!\(&mut self\.out, \"\{source\}\"\)\.ok\(\); \} "
              r"match source\.kind \{ ((?:ErrorKind::\w+ \| )*ErrorKind::\w+) => Ok\(\(\)\), _ => Err\(EXIT_FAILURE\), \} \} else \{ "
              r"let style = self\.err\.style\(\); writeln!\( &mut self\.err, (.*?) \) \.ok\(\); "
@@ -449,6 +451,9 @@ def gen_cli(repo):
     out += "Definition exit_env_main_error : N := exit_failure.\nDefinition exit_ok : N := 0.\n"
     out += "(* clap errors are written to err when use_stderr(), to out otherwise; other errors to err *)\n"
     out += "Definition clap_error_stream_by_use_stderr : bool := true.\nDefinition error_written_to_err : bool := true.\n"
+    out += "(* `self.run().and_then(|()| self.out.flush().context(error::Stdout))`: a payload still buffered when run() returns\n"
+    out += "   is flushed before success is reported, and a failed flush takes the error branch *)\n"
+    out += "Definition stdout_flushed_before_success : bool := true.\n"
     return out
 
 
@@ -458,7 +463,8 @@ def gen_cli_fallback():
             "Definition takes_options : list string := [].\nDefinition clap_ok_kinds : list string := [].\n"
             "Definition exit_failure : N := 0.\nDefinition exit_clap_other : N := 0.\nDefinition exit_error : N := 0.\n"
             "Definition exit_env_main_error : N := 0.\nDefinition exit_ok : N := 0.\n"
-            "Definition clap_error_stream_by_use_stderr : bool := false.\nDefinition error_written_to_err : bool := false.\n")
+            "Definition clap_error_stream_by_use_stderr : bool := false.\nDefinition error_written_to_err : bool := false.\n"
+            "Definition stdout_flushed_before_success : bool := false.\n")
 
 
 # ------------------------------------------------------------------ GenStreams
